@@ -40,12 +40,16 @@ def translate():
              "branch too far")
     table["BranchTooFar"] = {"i.mnemonic.span": "SrcMnemonic", "full_span": "SrcInstructionFull"}.get(m.group(1))
     # redefinition
-    m = need(r"let span = symbol\.span\.expect\(\"no span provided\"\); return Err\(Diagnostic::error\(\) "
-             r"\.with_message\(format!\(\"cannot redefine symbol: \{\}\", &path\)\) \.with_labels\(vec!\[(\w+)\.to_label\(\)\]\)", src, "cannot redefine symbol")
+    # C06: the new definition's span when it has one (`symbol.span.or(existing.span)`: only the assembler's own span-less
+    # `segments.<name>.start/.end` fall back to the existing definition) -- same source of the span for every program symbol
+    m = need(r"(?:let span = symbol\.span\.expect\(\"no span provided\"\); return Err\(Diagnostic::error\(\) "
+             r"\.with_message\(format!\(\"cannot redefine symbol: \{\}\", &path\)\) \.with_labels\(vec!\[(\w+)\.to_label\(\)\]\)"
+             r"|let mut diag = Diagnostic::error\(\) \.with_message\(format!\(\"cannot redefine symbol: \{\}\", &path\)\); "
+             r"if let Some\((span)\) = symbol\.span\.or\(existing\.span\) \{ diag = diag\.with_labels\(vec!\[span\.to_label\(\)\]\); \})", src, "cannot redefine symbol")
     lab = need(r"Token::Label \{ id, block, \.\. \} => \{ if let Some\(pc\) = self\.try_current_target_pc\(\) \{ self\.add_symbol\( id\.data\.clone\(\), "
                r"self\.symbol\((\w+(?:\.\w+)*), pc\.as_i64\(\), SymbolType::Label\), \)\?; \}", src, "label definition")
     var = need(r"self\.add_symbol\(id\.data\.clone\(\), self\.symbol\((\w+(?:\.\w+)*), value, ty\)\)\?;", src, "constant definition")
-    table["Redefinition"] = "SrcDefinitionId" if (m.group(1), lab.group(1), var.group(1)) == ("span", "id.span", "id.span") else None
+    table["Redefinition"] = "SrcDefinitionId" if (m.group(1) or m.group(2), lab.group(1), var.group(1)) == ("span", "id.span", "id.span") else None
     # macro arity
     need(r"fn map_evaluation_error\(&self, error: EvaluationError\) -> Diagnostics \{ Diagnostic::error\(\) \.with_message\(error\.message\) "
          r"\.with_labels\(vec!\[error\.span\.to_label\(\)\]\) \.into\(\) \}", src, "map_evaluation_error")
